@@ -44,6 +44,6 @@ Proof. exact no_software_no_recommendations. Qed.
 (* literals the model repeats from the source are the ones the translator extracts from the current source (gen/Tables.v) *)
 From VGen Require Import Tables.
 From VModel Require Import Recs.
-From VProofs Require Import TieProofs.
+From VProofs Require Import TieC13.
 Theorem c13_tie_chg_note : chg_notes = src_chg_note.
 Proof. exact tie_chg_note. Qed.
